@@ -5,6 +5,7 @@ import enum
 from typing import Dict, List
 import operator
 import pathlib
+import re
 import warnings
 
 
@@ -789,10 +790,15 @@ class Condition(ConditionLike):
         if isinstance(arg, valida.datapath.DataPath):
             return arg.to_spec()
         elif isinstance(arg, dict) and any(
-            isinstance(k, str) and "path" in k for k in arg
+            isinstance(k, str) and "path" in k.lower() for k in arg
         ):
+            # (the path-spec key is recognised in any letter case, so the escape is too)
             return {
-                (k.replace("path", r"\path") if isinstance(k, str) else k): v
+                (
+                    re.sub("(path)", r"\\\1", k, flags=re.IGNORECASE)
+                    if isinstance(k, str)
+                    else k
+                ): v
                 for k, v in arg.items()
             }
         return arg
